@@ -83,3 +83,57 @@ BENIGN += [
          old='        line_number = self.query.count("\\n", 0, self.index) + 1\n        column_number = self.index - self.query.rfind("\\n", 0, self.index)',
          new='        before = self.query[: self.index]\n        line_number = before.count("\\n") + 1\n        column_number = self.index - before.rfind("\\n")'),
 ]
+
+ENVF = S + "environment.py"
+_CACHE_INIT = dict(file=ENVF, old="        self.function_extensions: Dict[str, FilterFunction] = {}\n",
+                   new="        self._compiled: Dict[str, JSONPathQuery] = {}\n        self.function_extensions: Dict[str, FilterFunction] = {}\n")
+BENIGN += [
+    dict(id="c14-sound-query-cache-get", props=["C01", "C14", "C16", "C15", "C13"], edits=[
+        _CACHE_INIT,
+        dict(file=ENVF,
+             old="        tokens = tokenize(query)\n        stream = TokenStream(tokens)\n        return JSONPathQuery(env=self, segments=tuple(self.parser.parse(stream)))",
+             new="        cached = self._compiled.get(query)\n        if cached is not None:\n            return cached\n        tokens = tokenize(query)\n        stream = TokenStream(tokens)\n        compiled = JSONPathQuery(env=self, segments=tuple(self.parser.parse(stream)))\n        if len(self._compiled) > 100:\n            self._compiled.clear()\n        self._compiled[query] = compiled\n        return compiled")]),
+    dict(id="c14-sound-query-cache-subscript", props=["C01", "C14", "C16"], edits=[
+        _CACHE_INIT,
+        dict(file=ENVF,
+             old="        tokens = tokenize(query)\n        stream = TokenStream(tokens)\n        return JSONPathQuery(env=self, segments=tuple(self.parser.parse(stream)))",
+             new="        if query in self._compiled:\n            return self._compiled[query]\n        tokens = tokenize(query)\n        stream = TokenStream(tokens)\n        compiled = JSONPathQuery(env=self, segments=tuple(self.parser.parse(stream)))\n        self._compiled[query] = compiled\n        return compiled")]),
+]
+
+BENIGN += [
+    # a metacharacter-free pattern is a literal: skipping the engine is the same function
+    dict(id="c11-literal-shortcut-match", props=["C11", "C13", "C10"], file=S + "function_extensions/match.py",
+         old="        try:\n", new="        try:\n            if pattern.isalnum():\n                return pattern == string\n"),
+    dict(id="c11-literal-shortcut-search-guarded", props=["C11", "C13"], file=S + "function_extensions/search.py",
+         old="        try:\n", new="        try:\n            if isinstance(string, str) and pattern.isalnum():\n                return pattern in string\n"),
+]
+
+BENIGN += [
+    dict(id="c13-str-format-constant-template", props=["C13", "C19"], file=S + "exceptions.py",
+         old='        return f"{msg}, line {line}, column {column}"',
+         new='        return "{}, line {}, column {}".format(msg, line, column)'),
+    dict(id="c13-str-percent-constant-template", props=["C13", "C19"], file=S + "exceptions.py",
+         old='        return f"{msg}, line {line}, column {column}"',
+         new='        return "%s, line %d, column %d" % (msg, line, column)'),
+]
+
+BENIGN += [
+    # the cache key (token equality) covers query and index: a hit is the same computation
+    dict(id="c19-position-cached-faithfully", props=["C19", "C14", "C16", "C13"], edits=[
+        dict(file=S + "tokens.py", old="from enum import auto\n", new="from enum import auto\nfrom functools import lru_cache\n"),
+        dict(file=S + "tokens.py", old="    def position(self)", new="    @lru_cache(maxsize=128)\n    def position(self)")]),
+]
+
+BENIGN += [
+    dict(id="c20-message-via-local-and-ascii", props=["C20", "C13", "C19"], file=S + "lex.py",
+         old='    l.error(f"unexpected shorthand selector {c!r}")', new='    shown = ascii(c)\n    l.error("unexpected shorthand selector " + shown)'),
+    dict(id="c20-message-int-interpolation", props=["C20", "C13"], file=S + "parse.py",
+         old='f"invalid index {token.value!r}"', new='f"invalid index {token.value!r} at offset {token.index}"'),
+]
+
+BENIGN += [
+    # a functools cache on a pure function of a string: a hit is the same computation (was wrongly listed as a mutant
+    # while R14.3 rejected every caching decorator)
+    dict(id="c14-lru-cache-on-pure-map-re", props=["C14", "C16", "C11"], file=S + "function_extensions/_pattern.py",
+         old="def map_re(pattern: str) -> str:", new="import functools\n\n\n@functools.lru_cache(maxsize=64)\ndef map_re(pattern: str) -> str:"),
+]
